@@ -14,23 +14,23 @@ THEOREMS = [
     "Gozod.C06.c06_parts_ws", "Gozod.C06.accept_pair", "Gozod.C06.accept_comm",
     "Gozod.C06.c06_table_covers_matrix", "Gozod.C06.c06_no_silent_noop_partial", "Gozod.C06.c06_pairs_partial",
     "Gozod.C06.c06_order_independent",
+    "Gozod.C06.c06_no_silent_noop", "Gozod.C06.c06_pairs", "Gozod.C06.c06_order_independent_all",
     # type graphs (Proofs/C06G.lean)
     "Gozod.C06.c06_graph_no_lazy_on_dag", "Gozod.C06.c06_graph_walk_is_spec", "Gozod.C06.c06_graph_partial",
     "Gozod.C06.c06_graph_recursive_unchecked", "Gozod.C06.c06_graph_recursive_required_nil",
-    "Gozod.C06.c06_graph_nil_slice_rejected", "Gozod.C06.c06_graph_full_false", "Gozod.C06.c06_graph_map_recursion_diverges",
+    "Gozod.C06.c06_graph_nil_slice_rejected", "Gozod.C06.c06_graph_full_false", "Gozod.C06.c06_graph_map_recursion_builds",
     "Gozod.C06.c06_graph_table_is_model", "Gozod.C06.c06_graph_table_partial", "Gozod.C06.c06_graph_table_covers",
     # the schema is a function of the struct's own tags (Proofs/C06H.lean)
     "Gozod.C06.c06_history_independent", "Gozod.C06.c06_history_prefix_stable", "Gozod.C06.c06_tag_ws_verdict",
     "Gozod.C06.c06_rules_perm", "Gozod.C06.c06_accept_perm", "Gozod.C06.c06_tag_meaning_partial", "Gozod.C06.c06_tag_meaning_full_false",
     # the static table of type switches (Proofs/C06S.lean over Gen/TagSwitches.lean)
-    "Gozod.C06.c06_switches_reach_partial", "Gozod.C06.c06_switches_cover", "Gozod.C06.c06_unreached_is_dropped",
+    "Gozod.C06.c06_switches_reach_partial", "Gozod.C06.c06_switches_reach", "Gozod.C06.c06_switches_cover", "Gozod.C06.c06_unreached_is_dropped",
     "Gozod.C06.c06_tableX_shape",
 ]
 # witnesses that the known-finding region is exact; they stop checking when the library is repaired
 W_MODULES = ["Gozod.Proofs.C06W"]
 W_THEOREMS = [
     "Gozod.C06W.c06_no_silent_noop_witnesses", "Gozod.C06W.c06_pairs_witnesses", "Gozod.C06W.c06_order_witnesses",
-    "Gozod.C06W.c06_no_silent_noop_full_false", "Gozod.C06W.c06_order_independent_full_false",
     "Gozod.C06W.c06_graph_table_witnesses", "Gozod.C06W.c06_graph_table_full_false",
 ]
 
